@@ -337,11 +337,15 @@ RCase(f, n, v) ==
                             [Base(f, n, v) EXCEPT !.x = <<3 * D(n, 3, 1, v) + 1, 5 * D(n, 5, 2, v + 1) - 2>>]
     \* step 2 so that exact half-way queries exist; query v2/2 in half units: the harness passes q/2
     [] f = "NearestIdxForSpan" -> IF n < 2 THEN Skip(f, n, v) ELSE
-                            LET l == 2 * D(n, 3, 1, v)   st == Pick(<<2, -2, 4, -4>>, v + n)
+                            \* step 0: the degenerate span l = u. All n elements of Span(n, l, l) are exactly l (no
+                            \* rounding is involved), and NearestIdx documents the LOWEST index among equals, so the
+                            \* documented equivalence pins index 1 for every finite query.
+                            LET l == 2 * D(n, 3, 1, v)   st == Pick(<<2, -2, 4, -4, 0>>, v + n)
                                 u == l + (n - 1) * st
                                 q == Pick(<<l - 3, l, l + 1, l + st, u, u + 5, l + st * ((n - 1) \div 2) + 1,
                                             u - 1, l + 3, u - st - 1, l - 1>>, v + Seed)
-                            IN [Base(f, n, v) EXCEPT !.a = l, !.k = u, !.s = q, !.allow = Asc(NearestSpanSet(n, l, u, q))]
+                            IN [Base(f, n, v) EXCEPT !.a = l, !.k = u, !.s = q,
+                                  !.allow = IF st = 0 THEN <<1>> ELSE Asc(NearestSpanSet(n, l, u, q))]
     \* ---- strided (BLAS level 1) forms: whole backing arrays with guard elements
     [] f = "Axpy"        -> LET fa == FinAlpha(v)  ix == IncX(v)  iy == IncY(v)
                                 xf == Vec(n, 3, 1, v)  yf == Vec(n, 5, 2, v) IN
